@@ -1,11 +1,940 @@
-//! C06 — not built yet (see DESIGN.md §5 C06).
+//! C06 — predicates partition rows consistently under three-valued logic (metamorphic, no reference).
+//!
+//! For every predicate p of a bounded grammar × query shape Q × small database:
+//!   rows(Q) = rows(Q ∧ p) ⊎ rows(Q ∧ NOT p) ⊎ rows(Q ∧ (p IS NULL))      (rule per shape, below)
+//!   |Q WHERE p| = number of rows of `SELECT p FROM …` that are TRUE       (row-producing shapes)
+//! Nothing is compared with an expected output: the four (five) queries are all executed by the engine
+//! and only their mutual consistency is demanded. Enumeration is complete within the tier's bounds.
 
-pub fn run(_tier: &str) -> i32 {
-    eprintln!("MACHINERY-ERROR C06 is not built yet");
-    2
+use std::collections::{BTreeMap, BTreeSet, HashMap, HashSet};
+use std::sync::atomic::{AtomicU64, Ordering};
+use std::sync::Mutex;
+
+use serde_json::{json, Value};
+use vcore::exec::{self, Out};
+use vcore::report::Report;
+use vcore::util;
+use vcore::val::{self, NV};
+use vibesql_storage::Database;
+
+// =============================================================================================
+// predicates
+// =============================================================================================
+
+#[derive(Clone, Debug)]
+pub enum P {
+    /// SQL text of an atom, its kind tag, the columns (of a,b,c) it looks at
+    Atom(String, &'static str, &'static str),
+    Not(Box<P>),
+    And(Box<P>, Box<P>),
+    Or(Box<P>, Box<P>),
 }
 
-pub fn replay(_case: &serde_json::Value) -> i32 {
-    eprintln!("MACHINERY-ERROR C06 is not built yet");
-    2
+impl P {
+    /// SQL with every column prefixed by `q` (e.g. "t.") — atoms are written with `{}` placeholders
+    fn sql(&self, q: &str) -> String {
+        match self {
+            P::Atom(s, _, _) => s.replace("{}", q),
+            P::Not(a) => format!("NOT ({})", a.sql(q)),
+            P::And(a, b) => format!("({}) AND ({})", a.sql(q), b.sql(q)),
+            P::Or(a, b) => format!("({}) OR ({})", a.sql(q), b.sql(q)),
+        }
+    }
+    fn cols(&self, out: &mut BTreeSet<char>) {
+        match self {
+            P::Atom(_, _, c) => out.extend(c.chars()),
+            P::Not(a) => a.cols(out),
+            P::And(a, b) | P::Or(a, b) => {
+                a.cols(out);
+                b.cols(out)
+            }
+        }
+    }
+    fn kinds(&self, out: &mut BTreeSet<&'static str>) {
+        match self {
+            P::Atom(_, k, _) => {
+                out.insert(k);
+            }
+            P::Not(a) => a.kinds(out),
+            P::And(a, b) | P::Or(a, b) => {
+                a.kinds(out);
+                b.kinds(out)
+            }
+        }
+    }
+    /// structure with atoms erased, e.g. `not(and(_,_))`
+    fn structure(&self) -> String {
+        match self {
+            P::Atom(..) => "_".into(),
+            P::Not(a) => format!("not({})", a.structure()),
+            P::And(a, b) => format!("and({},{})", a.structure(), b.structure()),
+            P::Or(a, b) => format!("or({},{})", a.structure(), b.structure()),
+        }
+    }
+    fn depth(&self) -> usize {
+        match self {
+            P::Atom(..) => 0,
+            P::Not(a) => 1 + a.depth(),
+            P::And(a, b) | P::Or(a, b) => 1 + a.depth().max(b.depth()),
+        }
+    }
+}
+
+fn atom(s: &str, kind: &'static str, cols: &'static str) -> P {
+    P::Atom(s.to_string(), kind, cols)
+}
+
+/// The atom menu. `{}` stands for the column qualifier. `core` atoms are the ones combined at depth ≥ 1.
+fn atoms(thorough: bool) -> (Vec<P>, Vec<P>) {
+    let mut v: Vec<P> = vec![];
+    let ops = ["=", "<>", "<", "<=", ">", ">="];
+    // col op lit
+    for op in ops {
+        v.push(atom(&format!("{{}}a {} 1", op), "cmp_lit", "a"));
+    }
+    v.push(atom("{}a = 0", "cmp_lit", "a"));
+    v.push(atom("{}a > 0", "cmp_lit", "a"));
+    v.push(atom("{}a = NULL", "cmp_null", "a"));
+    v.push(atom("{}a <> NULL", "cmp_null", "a"));
+    // lit op col
+    v.push(atom("1 = {}a", "lit_cmp", "a"));
+    v.push(atom("0 < {}a", "lit_cmp", "a"));
+    // col op col
+    for op in ops {
+        v.push(atom(&format!("{{}}a {} {{}}b", op), "cmp_col", "ab"));
+    }
+    // IS [NOT] NULL
+    v.push(atom("{}a IS NULL", "is_null", "a"));
+    v.push(atom("{}a IS NOT NULL", "is_null", "a"));
+    // BETWEEN
+    v.push(atom("{}a BETWEEN 0 AND 1", "between", "a"));
+    v.push(atom("{}a NOT BETWEEN 0 AND 0", "between", "a"));
+    v.push(atom("{}a BETWEEN 1 AND 0", "between", "a"));
+    v.push(atom("{}a BETWEEN NULL AND 1", "between_null", "a"));
+    v.push(atom("{}a BETWEEN 0 AND NULL", "between_null", "a"));
+    v.push(atom("{}a BETWEEN {}b AND 1", "between_col", "ab"));
+    // IN list
+    v.push(atom("{}a IN (0, 1)", "in_list", "a"));
+    v.push(atom("{}a IN (1)", "in_list", "a"));
+    v.push(atom("{}a IN (0, NULL)", "in_null", "a"));
+    v.push(atom("{}a NOT IN (0, NULL)", "in_null", "a"));
+    v.push(atom("{}a NOT IN (0, 1)", "in_list", "a"));
+    v.push(atom("{}a IN (NULL)", "in_null", "a"));
+    v.push(atom("{}a IN ({}b, 1)", "in_col", "ab"));
+    // LIKE
+    v.push(atom("{}c LIKE 'a%'", "like", "c"));
+    v.push(atom("{}c LIKE '%b'", "like", "c"));
+    v.push(atom("{}c LIKE '_'", "like", "c"));
+    v.push(atom("{}c LIKE 'a'", "like", "c"));
+    v.push(atom("{}c NOT LIKE 'a%'", "like", "c"));
+    v.push(atom("{}c LIKE '%'", "like", "c"));
+    // CASE
+    v.push(atom("CASE WHEN {}a = 1 THEN {}b = 1 ELSE {}b IS NULL END", "case_bool", "ab"));
+    v.push(atom("CASE WHEN {}a = 1 THEN 1 ELSE 0 END = 1", "case_cmp", "a"));
+    v.push(atom("CASE {}a WHEN 0 THEN 1 WHEN 1 THEN NULL ELSE 0 END = 1", "case_cmp", "a"));
+    v.push(atom("CASE WHEN {}a > 0 THEN {}b ELSE {}a END > 0", "case_cmp", "ab"));
+    v.push(atom("CASE WHEN {}a = 1 THEN 1 WHEN {}a = 0 THEN 0 END", "case_int", "a"));
+    if thorough {
+        for op in ops {
+            v.push(atom(&format!("{{}}b {} 0", op), "cmp_lit", "b"));
+        }
+        v.push(atom("1 >= {}a", "lit_cmp", "a"));
+        v.push(atom("{}b IS NULL", "is_null", "b"));
+        v.push(atom("{}a NOT BETWEEN {}b AND 1", "between_col", "ab"));
+        v.push(atom("{}a BETWEEN SYMMETRIC 1 AND 0", "between", "a"));
+        v.push(atom("{}a IN (0, 0)", "in_list", "a"));
+        v.push(atom("{}a NOT IN (NULL)", "in_null", "a"));
+        v.push(atom("{}a NOT IN ({}b, NULL)", "in_col", "ab"));
+        v.push(atom("{}c = 'a'", "cmp_str", "c"));
+        v.push(atom("{}c > 'a'", "cmp_str", "c"));
+        v.push(atom("{}c NOT LIKE '_b'", "like", "c"));
+        v.push(atom("{}c LIKE NULL", "like_null", "c"));
+        v.push(atom("{}c IN ('a', NULL)", "in_null", "c"));
+    }
+    // core atoms for combinations: one per evaluation mechanism, with NULL-producing ones
+    let core: Vec<P> = vec![
+        atom("{}a = 1", "cmp_lit", "a"),
+        atom("{}b < 1", "cmp_lit", "b"),
+        atom("{}a IS NULL", "is_null", "a"),
+        atom("{}a IN (0, NULL)", "in_null", "a"),
+        atom("{}a = {}b", "cmp_col", "ab"),
+        atom("{}b BETWEEN 0 AND 0", "between", "b"),
+    ];
+    (v, core)
+}
+
+fn predicates(thorough: bool) -> Vec<P> {
+    let (atoms, core) = atoms(thorough);
+    let mut v: Vec<P> = atoms.clone();
+    // depth 1
+    for a in &atoms {
+        v.push(P::Not(Box::new(a.clone())));
+    }
+    let n1 = if thorough { core.len() } else { 4 };
+    for x in core.iter().take(n1) {
+        for y in core.iter().take(n1) {
+            v.push(P::And(Box::new(x.clone()), Box::new(y.clone())));
+            v.push(P::Or(Box::new(x.clone()), Box::new(y.clone())));
+        }
+    }
+    if thorough {
+        // depth 2 over the core atoms
+        let k = &core[..5];
+        for x in k {
+            for y in k {
+                for (i, comb) in [P::And(Box::new(x.clone()), Box::new(y.clone())), P::Or(Box::new(x.clone()), Box::new(y.clone()))].into_iter().enumerate() {
+                    v.push(P::Not(Box::new(comb.clone())));
+                    let nx = P::Not(Box::new(x.clone()));
+                    let ny = P::Not(Box::new(y.clone()));
+                    if i == 0 {
+                        v.push(P::And(Box::new(nx.clone()), Box::new(y.clone())));
+                        v.push(P::And(Box::new(x.clone()), Box::new(ny.clone())));
+                    } else {
+                        v.push(P::Or(Box::new(nx.clone()), Box::new(y.clone())));
+                        v.push(P::Or(Box::new(x.clone()), Box::new(ny.clone())));
+                    }
+                    for z in &k[..4] {
+                        if i == 0 {
+                            v.push(P::Or(Box::new(comb.clone()), Box::new(z.clone())));
+                            v.push(P::Or(Box::new(z.clone()), Box::new(comb.clone())));
+                        } else {
+                            v.push(P::And(Box::new(comb.clone()), Box::new(z.clone())));
+                            v.push(P::And(Box::new(z.clone()), Box::new(comb.clone())));
+                        }
+                    }
+                }
+            }
+        }
+    } else {
+        // quick: a handful of depth-2 forms (NOT over AND/OR, mixed AND/OR)
+        let x = &core[0];
+        let y = &core[3];
+        let z = &core[1];
+        let and = P::And(Box::new(x.clone()), Box::new(y.clone()));
+        let or = P::Or(Box::new(x.clone()), Box::new(y.clone()));
+        v.push(P::Not(Box::new(and.clone())));
+        v.push(P::Not(Box::new(or.clone())));
+        v.push(P::Or(Box::new(and), Box::new(z.clone())));
+        v.push(P::And(Box::new(or), Box::new(z.clone())));
+    }
+    v
+}
+
+/// HAVING predicates over the group key / aggregates (shape `having`)
+fn having_predicates() -> Vec<P> {
+    vec![
+        atom("a = 1", "having_key", "a"),
+        atom("a IS NULL", "having_key", "a"),
+        atom("a IN (0, NULL)", "having_key", "a"),
+        atom("COUNT(*) > 1", "having_agg", "ab"),
+        atom("SUM(b) > 0", "having_agg", "ab"),
+        atom("MIN(b) = 0", "having_agg", "ab"),
+        atom("SUM(b) IS NULL", "having_agg", "ab"),
+        P::Or(Box::new(atom("a = 1", "having_key", "a")), Box::new(atom("SUM(b) > 0", "having_agg", "ab"))),
+        P::Not(Box::new(atom("MIN(b) = 0", "having_agg", "ab"))),
+        P::And(Box::new(atom("COUNT(*) > 1", "having_agg", "ab")), Box::new(atom("a IN (0, NULL)", "having_key", "a"))),
+    ]
+}
+
+// =============================================================================================
+// shapes
+// =============================================================================================
+
+#[derive(Clone, Copy, Debug, PartialEq, Eq, PartialOrd, Ord)]
+enum Rule {
+    Bag,
+    Set,
+    GroupCount,
+    CountSum,
+}
+
+struct Shape {
+    id: &'static str,
+    /// select list + FROM (no WHERE), with `{W}` where the WHERE/HAVING condition goes
+    template: &'static str,
+    /// a condition that is always part of the query (join condition), ANDed in front of p
+    fixed: Option<&'static str>,
+    /// column qualifier for p
+    qual: &'static str,
+    rule: Rule,
+    /// `SELECT (p) FROM …` template for the count clause (None: the clause does not apply)
+    proj: Option<&'static str>,
+    having: bool,
+    needs_u: bool,
+    thorough_only: bool,
+}
+
+const SHAPES: &[Shape] = &[
+    Shape { id: "plain", template: "SELECT a, b, c FROM t{W}", fixed: None, qual: "", rule: Rule::Bag, proj: Some("SELECT {P} FROM t"), having: false, needs_u: false, thorough_only: false },
+    Shape { id: "distinct", template: "SELECT DISTINCT a, b FROM t{W}", fixed: None, qual: "", rule: Rule::Set, proj: None, having: false, needs_u: false, thorough_only: false },
+    Shape { id: "group_count", template: "SELECT a, COUNT(*) FROM t{W} GROUP BY a", fixed: None, qual: "", rule: Rule::GroupCount, proj: None, having: false, needs_u: false, thorough_only: false },
+    Shape { id: "global_agg", template: "SELECT COUNT(*), SUM(b) FROM t{W}", fixed: None, qual: "", rule: Rule::CountSum, proj: None, having: false, needs_u: false, thorough_only: false },
+    Shape { id: "join", template: "SELECT t.a, t.b, t.c, u.d FROM t, u{W}", fixed: Some("t.a = u.a"), qual: "t.", rule: Rule::Bag, proj: Some("SELECT {P} FROM t, u WHERE t.a = u.a"), having: false, needs_u: true, thorough_only: false },
+    Shape { id: "view", template: "SELECT a, b, c FROM v{W}", fixed: None, qual: "", rule: Rule::Bag, proj: Some("SELECT {P} FROM v"), having: false, needs_u: false, thorough_only: false },
+    Shape { id: "having", template: "SELECT a, COUNT(*) FROM t GROUP BY a{W}", fixed: None, qual: "", rule: Rule::Bag, proj: None, having: true, needs_u: false, thorough_only: false },
+    Shape { id: "join_on", template: "SELECT t.a, t.b, t.c, u.d FROM t JOIN u ON t.a = u.a{W}", fixed: None, qual: "t.", rule: Rule::Bag, proj: Some("SELECT {P} FROM t JOIN u ON t.a = u.a"), having: false, needs_u: true, thorough_only: true },
+    Shape { id: "derived", template: "SELECT a, b, c FROM (SELECT a, b, c FROM t) AS s{W}", fixed: None, qual: "", rule: Rule::Bag, proj: Some("SELECT {P} FROM (SELECT a, b, c FROM t) AS s"), having: false, needs_u: false, thorough_only: true },
+    Shape { id: "group_sum", template: "SELECT b, COUNT(*), COUNT(a) FROM t{W} GROUP BY b", fixed: None, qual: "", rule: Rule::GroupCount, proj: None, having: false, needs_u: false, thorough_only: true },
+];
+
+impl Shape {
+    fn query(&self, cond: Option<&str>) -> String {
+        let kw = if self.having { " HAVING " } else { " WHERE " };
+        let w = match (self.fixed, cond) {
+            (None, None) => String::new(),
+            (Some(f), None) => format!("{}{}", kw, f),
+            (None, Some(c)) => format!("{}{}", kw, c),
+            (Some(f), Some(c)) => format!("{}{} AND ({})", kw, f, c),
+        };
+        self.template.replace("{W}", &w)
+    }
+}
+
+// =============================================================================================
+// databases
+// =============================================================================================
+
+#[derive(Clone, Debug, PartialEq, Eq, PartialOrd, Ord, Hash)]
+enum V {
+    Null,
+    Int(i64),
+    Str(&'static str),
+}
+
+fn lit(v: &V) -> String {
+    match v {
+        V::Null => "NULL".into(),
+        V::Int(i) => i.to_string(),
+        V::Str(s) => format!("'{}'", s),
+    }
+}
+
+const INTS: [V; 3] = [V::Null, V::Int(0), V::Int(1)];
+const STRS: [V; 4] = [V::Null, V::Str("a"), V::Str("ab"), V::Str("b")];
+
+/// All multisets of ≤ n rows (a,b,c) in which only the columns in `cols` vary (others: a=0,b=0,c='a').
+fn t_bags(cols: &str, n: usize) -> Vec<Vec<[V; 3]>> {
+    let da: Vec<V> = if cols.contains('a') { INTS.to_vec() } else { vec![V::Int(0)] };
+    let db: Vec<V> = if cols.contains('b') { INTS.to_vec() } else { vec![V::Int(0)] };
+    let dc: Vec<V> = if cols.contains('c') { STRS.to_vec() } else { vec![V::Str("a")] };
+    let mut rows = vec![];
+    for a in &da {
+        for b in &db {
+            for c in &dc {
+                rows.push([a.clone(), b.clone(), c.clone()]);
+            }
+        }
+    }
+    let mut out = vec![];
+    for size in 0..=n {
+        for ms in util::multisets(rows.len(), size) {
+            out.push(ms.iter().map(|i| rows[*i].clone()).collect());
+        }
+    }
+    out
+}
+
+const U_VARIANTS: &[&[(Option<i64>, i64)]] = &[&[(Some(0), 7)], &[(Some(1), 7), (None, 8)], &[(Some(1), 7), (Some(1), 8), (Some(0), 9)]];
+
+fn setup_sql(t: &[[V; 3]], u: &[(Option<i64>, i64)], index: &str) -> Vec<String> {
+    let mut s = vec!["CREATE TABLE t (a INT, b INT, c VARCHAR(10))".to_string(), "CREATE TABLE u (a INT, d INT)".to_string()];
+    if !t.is_empty() {
+        s.push(format!("INSERT INTO t VALUES {}", t.iter().map(|r| format!("({}, {}, {})", lit(&r[0]), lit(&r[1]), lit(&r[2]))).collect::<Vec<_>>().join(", ")));
+    }
+    if !u.is_empty() {
+        s.push(format!("INSERT INTO u VALUES {}", u.iter().map(|(a, d)| format!("({}, {})", a.map(|x| x.to_string()).unwrap_or("NULL".into()), d)).collect::<Vec<_>>().join(", ")));
+    }
+    s.push("CREATE VIEW v AS SELECT a, b, c FROM t".to_string());
+    match index {
+        "none" => {}
+        "a" => s.push("CREATE INDEX ia ON t (a)".into()),
+        "b" => s.push("CREATE INDEX ib ON t (b)".into()),
+        "ab" => s.push("CREATE INDEX iab ON t (a, b)".into()),
+        "c" => s.push("CREATE INDEX ic ON t (c)".into()),
+        other => panic!("unknown index variant {}", other),
+    }
+    s
+}
+
+fn build_engine(stmts: &[String]) -> Result<Database, String> {
+    let mut db = Database::new();
+    for s in stmts {
+        let o = exec::exec(&mut db, s);
+        if !o.is_ok() {
+            return Err(format!("setup statement failed: {} => {}", s, o.brief()));
+        }
+    }
+    Ok(db)
+}
+
+// =============================================================================================
+// the laws
+// =============================================================================================
+
+type Rows = Vec<Vec<NV>>;
+
+fn nv_num(v: &NV) -> Option<i128> {
+    match v {
+        NV::Int(i) => Some(*i),
+        _ => None,
+    }
+}
+
+/// Does `whole` equal the combination of `parts` under `rule`? Err(text) explains the mismatch.
+fn combine_ok(rule: Rule, whole: &Rows, parts: [&Rows; 3]) -> Result<(), String> {
+    match rule {
+        Rule::Bag => {
+            let mut all: Rows = parts.iter().flat_map(|p| p.iter().cloned()).collect();
+            all.sort();
+            let mut w = whole.clone();
+            w.sort();
+            if all == w {
+                Ok(())
+            } else {
+                Err(format!("bag(Q)={} but union of the three parts={}", val::fmt_bag(&w), val::fmt_bag(&all)))
+            }
+        }
+        Rule::Set => {
+            for p in parts.iter() {
+                let s: BTreeSet<&Vec<NV>> = p.iter().collect();
+                if s.len() != p.len() {
+                    return Err(format!("a DISTINCT part contains duplicates: {}", val::fmt_bag(p)));
+                }
+            }
+            let all: BTreeSet<Vec<NV>> = parts.iter().flat_map(|p| p.iter().cloned()).collect();
+            let w: BTreeSet<Vec<NV>> = whole.iter().cloned().collect();
+            if w.len() != whole.len() {
+                return Err(format!("DISTINCT Q contains duplicates: {}", val::fmt_bag(whole)));
+            }
+            if all == w {
+                Ok(())
+            } else {
+                Err(format!("set(Q)={:?} but union of the parts={:?}", w.iter().map(|r| val::fmt_bag(&[r.clone()])).collect::<Vec<_>>(), all.iter().map(|r| val::fmt_bag(&[r.clone()])).collect::<Vec<_>>()))
+            }
+        }
+        Rule::GroupCount => {
+            // rows are (key, count, [count…]); counts add per key; a key absent from a part counts 0
+            let width = whole.first().or(parts.iter().find_map(|p| p.first())).map(|r| r.len()).unwrap_or(2);
+            let mut sum: BTreeMap<NV, Vec<i128>> = BTreeMap::new();
+            for p in parts.iter() {
+                for r in p.iter() {
+                    let e = sum.entry(r[0].clone()).or_insert_with(|| vec![0; width - 1]);
+                    for i in 1..width {
+                        e[i - 1] += nv_num(&r[i]).ok_or(format!("non-numeric count in {}", val::fmt_bag(p)))?;
+                    }
+                }
+            }
+            sum.retain(|_, c| c[0] != 0);
+            let mut w: BTreeMap<NV, Vec<i128>> = BTreeMap::new();
+            for r in whole.iter() {
+                if w.contains_key(&r[0]) {
+                    return Err(format!("group key twice in Q: {}", val::fmt_bag(whole)));
+                }
+                let mut c = vec![];
+                for i in 1..width {
+                    c.push(nv_num(&r[i]).ok_or(format!("non-numeric count in {}", val::fmt_bag(whole)))?);
+                }
+                w.insert(r[0].clone(), c);
+            }
+            if w == sum {
+                Ok(())
+            } else {
+                Err(format!("per-group counts of Q={} but parts add up to {:?} (parts {} | {} | {})", val::fmt_bag(whole), sum, val::fmt_bag(parts[0]), val::fmt_bag(parts[1]), val::fmt_bag(parts[2])))
+            }
+        }
+        Rule::CountSum => {
+            // exactly one row (COUNT(*), SUM(b)) each; counts add; sums add; NULL reads as 0 on both sides
+            let one = |r: &Rows| -> Result<(i128, i128), String> {
+                if r.len() != 1 || r[0].len() != 2 {
+                    return Err(format!("aggregate query without GROUP BY returned {} rows: {}", r.len(), val::fmt_bag(r)));
+                }
+                // COUNT(*) = NULL (the columnar path on an empty input, a defect of property C03) reads as 0:
+                // this law only demands that the parts add up
+                let c = match &r[0][0] {
+                    NV::Null => 0,
+                    v => nv_num(v).ok_or(format!("COUNT(*) is not a number: {}", val::fmt_bag(r)))?,
+                };
+                let s = match &r[0][1] {
+                    NV::Null => 0,
+                    v => nv_num(v).ok_or(format!("SUM is not an integer: {}", val::fmt_bag(r)))?,
+                };
+                Ok((c, s))
+            };
+            let w = one(whole)?;
+            let mut acc = (0, 0);
+            for p in parts.iter() {
+                let x = one(p)?;
+                acc.0 += x.0;
+                acc.1 += x.1;
+            }
+            if w == acc {
+                Ok(())
+            } else {
+                Err(format!("(COUNT,SUM) of Q={:?} but the parts add up to {:?} (parts {} | {} | {})", w, acc, val::fmt_bag(parts[0]), val::fmt_bag(parts[1]), val::fmt_bag(parts[2])))
+            }
+        }
+    }
+}
+
+/// Number of rows of a one-column result whose value is TRUE (boolean true, or non-zero number:
+/// the engine's WHERE treats a non-zero number as true).
+fn count_true(r: &Rows) -> usize {
+    r.iter().filter(|row| matches!(row.first(), Some(NV::Int(i)) if *i != 0)).count()
+}
+
+// =============================================================================================
+// the run
+// =============================================================================================
+
+struct Case<'a> {
+    shape: &'a Shape,
+    p: &'a P,
+}
+
+#[derive(Default)]
+struct Stats {
+    cases: u64,
+    executions: u64,
+    skipped_err: u64,
+    panics: u64,
+    nontrivial: u64,
+    count_clause: u64,
+    failing: u64,
+    outcomes: HashSet<u64>,
+    err_kinds: BTreeMap<String, u64>,
+    per_shape: BTreeMap<&'static str, u64>,
+}
+
+struct Found {
+    order: usize,
+    sig: Vec<(&'static str, String)>,
+    what: String,
+    case: Value,
+}
+
+fn rows_of(o: &Out) -> Option<Rows> {
+    match o {
+        Out::Rows(r) => Some(r.iter().map(|x| val::norm_row(x)).collect()),
+        _ => None,
+    }
+}
+
+fn hash_rows(b: &Rows) -> u64 {
+    use std::hash::{Hash, Hasher};
+    #[allow(deprecated)]
+    let mut h = std::hash::SipHasher::new_with_keys(5, 13);
+    b.hash(&mut h);
+    h.finish()
+}
+
+/// The four/five queries of a case.
+fn case_queries(shape: &Shape, p: &P) -> (String, String, String, Option<String>) {
+    let ps = p.sql(shape.qual);
+    let qp = shape.query(Some(&ps));
+    let qn = shape.query(Some(&format!("NOT ({})", ps)));
+    let qu = shape.query(Some(&format!("({}) IS NULL", ps)));
+    let proj = shape.proj.map(|t| t.replace("{P}", &format!("({})", ps)));
+    (qp, qn, qu, proj)
+}
+
+/// Evaluate one case on a database. Ok(None) = held; Ok(Some(law, text)) = violated; Err = skipped (engine error).
+fn check_case(db: &Database, shape: &Shape, p: &P, q_rows: &Rows, st: &mut Stats) -> Result<Option<(&'static str, String)>, String> {
+    let (qp, qn, qu, proj) = case_queries(shape, p);
+    let mut parts: Vec<Rows> = vec![];
+    for sql in [&qp, &qn, &qu] {
+        let o = exec::select(db, sql);
+        st.executions += 1;
+        match &o {
+            Out::Rows(_) => parts.push(rows_of(&o).unwrap()),
+            Out::Panic(m) => {
+                st.panics += 1;
+                return Ok(Some(("panic", format!("`{}` panicked: {}", sql, util::trunc(m, 160)))));
+            }
+            other => return Err(other.brief()),
+        }
+    }
+    for pr in &parts {
+        st.outcomes.insert(hash_rows(pr));
+    }
+    if parts.iter().filter(|p| !p.is_empty()).count() >= 2 || (shape.rule == Rule::CountSum && !q_rows.is_empty()) {
+        st.nontrivial += 1;
+    }
+    if let Err(e) = combine_ok(shape.rule, q_rows, [&parts[0], &parts[1], &parts[2]]) {
+        return Ok(Some(("partition", format!("{} — Q∧p: `{}`", e, qp))));
+    }
+    if let Some(ps) = proj {
+        let o = exec::select(db, &ps);
+        st.executions += 1;
+        match &o {
+            Out::Rows(_) => {
+                st.count_clause += 1;
+                let r = rows_of(&o).unwrap();
+                let n = count_true(&r);
+                if n != parts[0].len() {
+                    return Ok(Some(("count", format!("`{}` returns {} rows but `{}` yields TRUE on {} rows: {}", qp, parts[0].len(), ps, n, val::fmt_bag(&r)))));
+                }
+                if r.len() != q_rows.len() {
+                    return Ok(Some(("count", format!("`{}` returns {} rows, Q returns {}", ps, r.len(), q_rows.len()))));
+                }
+            }
+            Out::Panic(m) => {
+                st.panics += 1;
+                return Ok(Some(("panic", format!("`{}` panicked: {}", ps, util::trunc(m, 160)))));
+            }
+            other => return Err(other.brief()),
+        }
+    }
+    Ok(None)
+}
+
+pub fn run(tier: &str) -> i32 {
+    let mut rep = Report::new("C06", tier, "model_checking");
+    let thorough = tier == "thorough";
+    vibesql_types::verif::reset();
+    let preds = predicates(thorough);
+    let hav = having_predicates();
+    let shapes: Vec<&Shape> = SHAPES.iter().filter(|s| thorough || !s.thorough_only).collect();
+    let index_variants: Vec<&str> = if thorough { vec!["none", "a", "ab", "c"] } else { vec!["none", "a"] };
+    // shapes executed on an indexed database (the `indexed table` shape of the property = these)
+    let indexed_shapes: &[&str] = if thorough { &["plain", "distinct", "group_count", "global_agg", "join", "view", "having", "join_on"] } else { &["plain", "group_count", "global_agg", "join"] };
+
+    // cases grouped by the column footprint of p
+    let mut by_cols: BTreeMap<String, Vec<Case>> = BTreeMap::new();
+    for s in &shapes {
+        let list: &Vec<P> = if s.having { &hav } else { &preds };
+        for p in list {
+            let mut c = BTreeSet::new();
+            p.cols(&mut c);
+            if s.having {
+                c.insert('a');
+            }
+            let key: String = c.into_iter().collect();
+            by_cols.entry(key).or_default().push(Case { shape: s, p });
+        }
+    }
+    // work items: (footprint, t rows, u variant index)
+    struct Work {
+        cols: String,
+        t: Vec<[V; 3]>,
+        /// position in `index_variants`
+        xi: usize,
+    }
+    let mut work: Vec<Work> = vec![];
+    let mut scope_note: BTreeMap<String, Value> = BTreeMap::new();
+    for cols in by_cols.keys() {
+        let width = cols.len();
+        let n = match (thorough, width) {
+            (false, 1) => 2,
+            (false, _) => 1,
+            (true, 1) => 3,
+            (true, 2) => 2,
+            (true, _) => 1,
+        };
+        let bags = t_bags(cols, n);
+        scope_note.insert(cols.clone(), json!({"max_rows_t": n, "databases_t": bags.len(), "cases": by_cols[cols].len()}));
+        for t in bags {
+            for (xi, index) in index_variants.iter().enumerate() {
+                if (*index == "c" && !cols.contains('c')) || ((*index == "b" || *index == "ab") && !cols.contains('b')) {
+                    continue;
+                }
+                work.push(Work { cols: cols.clone(), t: t.clone(), xi });
+            }
+        }
+    }
+    work.sort_by_key(|w| w.t.len());
+
+    if std::env::var("VERIF_C06_DRY").is_ok() {
+        let mut total = 0usize;
+        for w in &work {
+            {
+                let index = &index_variants[w.xi];
+                let nu = if thorough { U_VARIANTS.len() } else { 1 };
+                for c in &by_cols[&w.cols] {
+                    if *index != "none" && !indexed_shapes.contains(&c.shape.id) {
+                        continue;
+                    }
+                    total += (if c.shape.needs_u { nu } else { 1 }) * (if c.shape.proj.is_some() { 4 } else { 3 });
+                }
+            }
+        }
+        println!("predicates {} (+{} having), databases {}, planned executions about {}", preds.len(), hav.len(), work.len(), total);
+        println!("{}", serde_json::to_string(&scope_note).unwrap());
+        return 0;
+    }
+    let stats = Mutex::new(Stats::default());
+    let found: Mutex<HashMap<String, Found>> = Mutex::new(HashMap::new());
+    let mach: Mutex<Vec<String>> = Mutex::new(vec![]);
+    let samples: Mutex<Vec<Value>> = Mutex::new(vec![]);
+    let budget_s: f64 = std::env::var("VERIF_C06_BUDGET_S").ok().and_then(|s| s.parse().ok()).unwrap_or(if thorough { 840.0 } else { 1e9 });
+    let start = std::time::Instant::now();
+    let capped = AtomicU64::new(0);
+    let done = AtomicU64::new(0);
+    let only_shape = std::env::var("VERIF_C06_SHAPE").ok();
+    if only_shape.is_some() {
+        rep.set("development_filter", json!(only_shape));
+    }
+
+    util::par_map(&work, |wi, w| {
+        if start.elapsed().as_secs_f64() > budget_s {
+            capped.fetch_add(1, Ordering::Relaxed);
+            return;
+        }
+        let mut st = Stats::default();
+        let mut item_cut = false;
+        let cases = &by_cols[&w.cols];
+        let u_variants: Vec<&[(Option<i64>, i64)]> = if thorough { U_VARIANTS.to_vec() } else { U_VARIANTS[1..2].to_vec() };
+        {
+            let xi = w.xi;
+            let index = &index_variants[xi];
+            for (ui, u) in u_variants.iter().enumerate() {
+                let stmts = setup_sql(&w.t, u, index);
+                let db = match build_engine(&stmts) {
+                    Ok(d) => d,
+                    Err(e) => {
+                        let mut m = mach.lock().unwrap();
+                        if m.len() < 5 {
+                            m.push(e);
+                        }
+                        continue;
+                    }
+                };
+                // Q per shape, once
+                let mut q_cache: HashMap<&'static str, Option<Rows>> = HashMap::new();
+                for c in cases.iter() {
+                    if start.elapsed().as_secs_f64() > budget_s {
+                        item_cut = true;
+                        break;
+                    }
+                    let s = c.shape;
+                    if let Some(f) = &only_shape {
+                        if f != s.id {
+                            continue;
+                        }
+                    }
+                    if !s.needs_u && ui > 0 {
+                        continue; // u does not matter for this shape: once is enough
+                    }
+                    if *index != "none" && !indexed_shapes.contains(&s.id) {
+                        continue;
+                    }
+                    let q_rows = q_cache.entry(s.id).or_insert_with(|| {
+                        st.executions += 1;
+                        rows_of(&exec::select(&db, &s.query(None)))
+                    });
+                    let Some(q_rows) = q_rows.clone() else {
+                        let mut m = mach.lock().unwrap();
+                        if m.len() < 5 {
+                            m.push(format!("the base query `{}` failed", s.query(None)));
+                        }
+                        continue;
+                    };
+                    st.cases += 1;
+                    *st.per_shape.entry(s.id).or_default() += 1;
+                    match check_case(&db, s, c.p, &q_rows, &mut st) {
+                        Ok(None) => {}
+                        Err(e) => {
+                            st.skipped_err += 1;
+                            let mut k = BTreeSet::new();
+                            c.p.kinds(&mut k);
+                            *st.err_kinds.entry(format!("{}:{}: {}", s.id, k.into_iter().collect::<Vec<_>>().join("+"), util::trunc(&e, 60))).or_default() += 1;
+                        }
+                        Ok(Some((law, text))) => {
+                            st.failing += 1;
+                            let mut k = BTreeSet::new();
+                            c.p.kinds(&mut k);
+                            let sig: Vec<(&'static str, String)> = vec![
+                                ("law", law.to_string()),
+                                ("shape", s.id.to_string()),
+                                ("index", index.to_string()),
+                                ("atoms", k.into_iter().collect::<Vec<_>>().join("+")),
+                                ("structure", c.p.structure()),
+                            ];
+                            let key = sig.iter().map(|(a, b)| format!("{}={}", a, b)).collect::<Vec<_>>().join(";");
+                            let order = wi * 64 + xi * 8 + ui;
+                            let mut f = found.lock().unwrap();
+                            let better = f.get(&key).map(|o| order < o.order).unwrap_or(true);
+                            if better {
+                                // re-execute twice from scratch
+                                let mut same = true;
+                                for _ in 0..2 {
+                                    let again = build_engine(&stmts).ok().and_then(|d2| {
+                                        let q2 = rows_of(&exec::select(&d2, &s.query(None)))?;
+                                        let mut tmp = Stats::default();
+                                        check_case(&d2, s, c.p, &q2, &mut tmp).ok().flatten()
+                                    });
+                                    match again {
+                                        Some((l2, t2)) if l2 == law && t2 == text => {}
+                                        _ => same = false,
+                                    }
+                                }
+                                if !same {
+                                    let mut m = mach.lock().unwrap();
+                                    if m.len() < 5 {
+                                        m.push(format!("observation not reproducible: shape {} predicate `{}`: {}", s.id, c.p.sql(s.qual), text));
+                                    }
+                                } else {
+                                    let (qp, qn, qu, proj) = case_queries(s, c.p);
+                                    let case = json!({"setup": stmts, "shape": s.id, "predicate": c.p.sql(s.qual), "q": s.query(None), "q_p": qp, "q_not_p": qn, "q_p_is_null": qu, "select_p": proj, "rule": format!("{:?}", s.rule)});
+                                    let what = format!("shape {} predicate `{}` index {}: {}; t={:?}", s.id, c.p.sql(s.qual), index, text, w.t.iter().map(|r| format!("({},{},{})", lit(&r[0]), lit(&r[1]), lit(&r[2]))).collect::<Vec<_>>());
+                                    f.insert(key, Found { order, sig, what, case });
+                                }
+                            }
+                        }
+                    }
+                }
+            }
+        }
+        if wi % 37 == 5 {
+            let mut s = samples.lock().unwrap();
+            if s.len() < 6 {
+                if let Some(c) = cases.get(wi % cases.len().max(1)) {
+                    let (qp, qn, qu, proj) = case_queries(c.shape, c.p);
+                    s.push(json!({"setup": setup_sql(&w.t, U_VARIANTS[1], "a"), "q": c.shape.query(None), "q_p": qp, "q_not_p": qn, "q_p_is_null": qu, "select_p": proj}));
+                }
+            }
+        }
+        if item_cut {
+            capped.fetch_add(1, Ordering::Relaxed);
+        }
+        let d = done.fetch_add(1, Ordering::Relaxed) + 1;
+        let mut g = stats.lock().unwrap();
+        g.cases += st.cases;
+        g.executions += st.executions;
+        g.skipped_err += st.skipped_err;
+        g.panics += st.panics;
+        g.nontrivial += st.nontrivial;
+        g.count_clause += st.count_clause;
+        g.failing += st.failing;
+        g.outcomes.extend(st.outcomes);
+        for (k, v) in st.err_kinds {
+            *g.err_kinds.entry(k).or_default() += v;
+        }
+        for (k, v) in st.per_shape {
+            *g.per_shape.entry(k).or_default() += v;
+        }
+        if d % 20 == 0 && std::env::var("VERIF_PROGRESS").is_ok() {
+            eprintln!("  .. {} of {} items, {} cases, {} executions, {:.0}s", d, work.len(), g.cases, g.executions, start.elapsed().as_secs_f64());
+        }
+    });
+
+    let st = stats.into_inner().unwrap();
+    let capped = capped.load(Ordering::Relaxed);
+    for m in mach.into_inner().unwrap() {
+        rep.machinery_error(m);
+    }
+    let mut fv: Vec<Found> = found.into_inner().unwrap().into_values().collect();
+    fv.sort_by_key(|f| f.order);
+    let n_sig = fv.len();
+    for f in fv {
+        let sig: Vec<(&str, String)> = f.sig.iter().map(|(k, v)| (*k, v.clone())).collect();
+        rep.violation(&sig, f.what, f.case);
+    }
+    let (reach, vac) = vcore::report::reach_json(&["index_scan", "index_where_skip", "columnar_taken", "join_reorder"]);
+    let depths: BTreeMap<usize, usize> = preds.iter().fold(BTreeMap::new(), |mut m, p| {
+        *m.entry(p.depth()).or_default() += 1;
+        m
+    });
+    rep.set("evaluations", json!(st.executions));
+    rep.set("distinct_nontrivial", json!(st.nontrivial));
+    rep.set("rule", json!("every (predicate, shape, database, index variant) of the stated bounds is one case (all distinct by construction): Q, Q∧p, Q∧NOT p, Q∧(p IS NULL) and SELECT p are executed by the engine and combined by the shape's rule; a case is non-trivial when at least two of the three parts are non-empty (aggregate shape: Q non-empty)"));
+    rep.set("states", json!(work.len()));
+    rep.set("databases_times_index_variants", json!(work.len()));
+    rep.set("transitions", json!(st.executions));
+    rep.set("traces_validated_against_impl", json!(st.executions));
+    rep.set("cases", json!(st.cases));
+    rep.set("cases_per_shape", json!(st.per_shape));
+    rep.set("count_clause_cases", json!(st.count_clause));
+    rep.set("cases_skipped_engine_error", json!(st.skipped_err));
+    rep.set("engine_errors_by_shape_and_atoms", json!(st.err_kinds));
+    rep.set("panics", json!(st.panics));
+    rep.set("failing_cases", json!(st.failing));
+    rep.set("failing_signatures", json!(n_sig));
+    rep.set("distinct_part_results", json!(st.outcomes.len()));
+    rep.set("predicates", json!({"total": preds.len(), "by_depth": depths, "having": hav.len()}));
+    rep.set("shapes", json!(shapes.iter().map(|s| s.id).collect::<Vec<_>>()));
+    rep.set("index_variants", json!(index_variants));
+    rep.set("scope_by_column_footprint", json!(scope_note));
+    rep.set("exhaustive", json!(capped == 0));
+    if capped > 0 {
+        rep.set("capped", json!(format!("time budget {} s reached; {} of {} items not run or not completed (items are dispatched in order of database size; what was covered is a prefix of that order up to the threads in flight)", budget_s, capped, work.len())));
+    }
+    rep.set("reach", reach);
+    rep.set("vacuous_mechanisms", vac);
+    rep.set("samples", json!(samples.into_inner().unwrap()));
+    rep.assume("no reference semantics is used: a predicate evaluated wrongly but identically in WHERE, NOT, IS NULL and the select list is invisible to this check (that is C01's business)");
+    rep.assume("a case in which the engine rejects one of the derived queries is skipped and counted");
+    println!(
+        "C06 {}: {} (database, index variant) items, {} cases ({} non-trivial, {} skipped on engine errors), {} executions, {} distinct part results, {} predicates (by depth {:?}), failing cases {} in {} signatures",
+        tier,
+        work.len(),
+        st.cases,
+        st.nontrivial,
+        st.skipped_err,
+        st.executions,
+        st.outcomes.len(),
+        preds.len(),
+        depths,
+        st.failing,
+        n_sig
+    );
+    if !st.err_kinds.is_empty() {
+        println!("  engine errors (cases skipped): {:?}", st.err_kinds.iter().take(6).collect::<Vec<_>>());
+    }
+    rep.finish()
+}
+
+// =============================================================================================
+// replay
+// =============================================================================================
+
+pub fn replay(case: &Value) -> i32 {
+    let setup: Vec<String> = case["setup"].as_array().map(|a| a.iter().filter_map(|s| s.as_str().map(|x| x.to_string())).collect()).unwrap_or_default();
+    let db = match build_engine(&setup) {
+        Ok(d) => d,
+        Err(e) => {
+            eprintln!("MACHINERY-ERROR {}", e);
+            return 2;
+        }
+    };
+    for s in &setup {
+        println!("  {}", s);
+    }
+    let rule = match case["rule"].as_str() {
+        Some("Set") => Rule::Set,
+        Some("GroupCount") => Rule::GroupCount,
+        Some("CountSum") => Rule::CountSum,
+        _ => Rule::Bag,
+    };
+    let mut res: Vec<Option<Rows>> = vec![];
+    for k in ["q", "q_p", "q_not_p", "q_p_is_null", "select_p"] {
+        if let Some(sql) = case[k].as_str() {
+            let o = exec::select(&db, sql);
+            println!("{:<12} {}\n             => {}", k, sql, o.brief());
+            res.push(rows_of(&o));
+        } else {
+            res.push(None);
+        }
+    }
+    let (Some(q), Some(p), Some(n), Some(u)) = (&res[0], &res[1], &res[2], &res[3]) else {
+        println!("replay: one of the queries no longer returns rows");
+        return 1;
+    };
+    let mut bad = false;
+    if let Err(e) = combine_ok(rule, q, [p, n, u]) {
+        println!("partition law violated: {}", e);
+        bad = true;
+    }
+    if let Some(sp) = &res[4] {
+        if count_true(sp) != p.len() {
+            println!("count law violated: WHERE p keeps {} rows, SELECT p is TRUE on {}", p.len(), count_true(sp));
+            bad = true;
+        }
+    }
+    if bad {
+        println!("replay: violation reproduced");
+        1
+    } else {
+        println!("replay: both laws hold now");
+        0
+    }
 }
